@@ -29,7 +29,8 @@ def serve(names, binary=False):
             fh.write(text)
     cmd = open("fake.cmd", "r")
     ack = open("fake.ack", "w")
-    ack.write(f"hello {os.getpid()}\n")
+    # pid of the program that talks, its parent, and whether it was started through a launcher process
+    ack.write(f"hello {os.getpid()} {os.getppid()} {1 if os.environ.get('FAKE_MD_LAUNCHED') else 0}\n")
     ack.flush()
     out = {}
     written = {k: 0 for k in names}
